@@ -465,7 +465,7 @@ macro_rules! dshard {
         #[kani::proof]
         #[kani::unwind($unwind)]
         #[kani::stub(crate::frame::header::crc32, crc_stub)]
-        fn $name() {
+        pub(crate) fn $name() {
             $f::<$({ $arg }),*>()
         }
     };
@@ -475,7 +475,7 @@ macro_rules! dshard_mf {
         #[kani::proof]
         #[kani::unwind($unwind)]
         #[kani::stub(crate::frame::header::crc32, crc_stub)]
-        fn $name() {
+        pub(crate) fn $name() {
             $f::<$({ $arg }),*>();
             must_fail_witness();
         }
